@@ -16,7 +16,7 @@ import (
 // ReadFault is a fault injected at the storage/network seam.
 type ReadFault struct {
 	Loc  string `json:"loc"`           // canonical location
-	Kind string `json:"kind"`          // enoent | eio | torn | http5xx | http_reset | changed
+	Kind string `json:"kind"`          // enoent | eio | torn | http5xx | http_reset | http_short | changed
 	Nth  int    `json:"nth,omitempty"` // which read of Loc is hit (0 = every read)
 	Cut  int    `json:"cut,omitempty"` // torn / http_reset: byte offset
 }
@@ -69,7 +69,11 @@ func Canon(u *url.URL) string {
 		if p == "" {
 			p = "/"
 		}
-		return u.Scheme + "://" + u.Host + path.Clean(p)
+		user := ""
+		if u.User != nil {
+			user = u.User.String() + "@" // credentials are part of what is asked for: another user's view is another resource
+		}
+		return u.Scheme + "://" + user + u.Host + path.Clean(p)
 	default:
 		c := *u
 		c.Fragment = ""
@@ -86,6 +90,22 @@ func (s *Storage) faultFor(loc string) *ReadFault {
 		}
 	}
 	return nil
+}
+
+// Partial is the part of content a partial delivery hands over under fault f
+// (torn: cut anywhere; http_short: cut at a line boundary; http_reset: cut
+// anywhere, with an error).
+func Partial(content []byte, f ReadFault) []byte {
+	cut := f.Cut
+	if cut < 0 || cut > len(content) {
+		cut = len(content) / 2
+	}
+	if f.Kind == "http_short" {
+		if i := strings.LastIndexByte(string(content[:cut]), '\n'); i > 0 {
+			cut = i + 1
+		}
+	}
+	return append([]byte{}, content[:cut]...)
 }
 
 // read is the single point every simulated read goes through.
@@ -142,6 +162,22 @@ func (s *Storage) read(loc, via string) (data []byte, err error, fault string) {
 			}
 			s.Fired["eio"]++
 			return nil, fmt.Errorf("read %s: input/output error", loc), "eio"
+		case "http_short":
+			// the response announces more than the connection delivers: the body ends early with
+			// io.ErrUnexpectedEOF, cut at a line boundary (so that what did arrive may well parse)
+			if via == "http" {
+				s.Fired["http_short"]++
+				cut := f.Cut
+				if cut < 0 || cut > len(content) {
+					cut = len(content) / 2
+				}
+				if i := strings.LastIndexByte(string(content[:cut]), '\n'); i > 0 {
+					cut = i + 1
+				}
+				return append([]byte{}, content[:cut]...), errHTTPShort, "http_short"
+			}
+			s.Fired["eio"]++
+			return nil, fmt.Errorf("read %s: input/output error", loc), "eio"
 		case "http_reset":
 			if via == "http" {
 				s.Fired["http_reset"]++
@@ -164,13 +200,14 @@ func (s *Storage) read(loc, via string) (data []byte, err error, fault string) {
 var (
 	errHTTP5xx   = errors.New("http 503")
 	errHTTPReset = errors.New("connection reset by peer")
+	errHTTPShort = io.ErrUnexpectedEOF
 )
 
 // ReadURL serves a custom ReadFromURIFunc.
 func (s *Storage) ReadURL(u *url.URL) ([]byte, error) {
 	loc := Canon(u)
 	data, err, _ := s.read(loc, "func")
-	if err == errHTTP5xx || err == errHTTPReset {
+	if err == errHTTP5xx || err == errHTTPReset || err == errHTTPShort {
 		return nil, fmt.Errorf("error loading %q: %v", loc, err)
 	}
 	return data, err
@@ -206,7 +243,11 @@ func (s *Storage) RoundTrip(req *http.Request) (*http.Response, error) {
 	case err == errHTTP5xx:
 		return mk(503, io.NopCloser(strings.NewReader("unavailable"))), nil
 	case err == errHTTPReset:
-		return mk(200, &resetBody{data: data}), nil
+		return mk(200, &resetBody{data: data, err: errHTTPReset}), nil
+	case err == errHTTPShort:
+		r := mk(200, &resetBody{data: data, err: io.ErrUnexpectedEOF})
+		r.ContentLength = int64(len(data)) + 100
+		return r, nil
 	case err != nil:
 		return mk(404, io.NopCloser(strings.NewReader("not found"))), nil
 	}
@@ -226,11 +267,12 @@ func (s *Storage) hosts() map[string]bool {
 type resetBody struct {
 	data []byte
 	pos  int
+	err  error
 }
 
 func (b *resetBody) Read(p []byte) (int, error) {
 	if b.pos >= len(b.data) {
-		return 0, errHTTPReset
+		return 0, b.err
 	}
 	n := copy(p, b.data[b.pos:])
 	b.pos += n
